@@ -420,7 +420,7 @@ func c15Work(c *engine.Ctx) {
 	}
 	// illegal character inserted at every token boundary of valid documents
 	isp := c.SpaceByName("insert")
-	illegal := []string{"@", "\\", "#", "\u2019"}
+	illegal := []string{"@", "\\", "#", "\u2019", "\x01", "\x1f", "\x7f", "\u00a7", "\u20ac"}
 	var jsDocs []string
 	for _, s := range seedsJS {
 		jsDocs = append(jsDocs, s)
@@ -477,7 +477,7 @@ func c15Work(c *engine.Ctx) {
 					continue
 				}
 				for _, b := range jsonBoundaries(src) {
-					for _, ill := range append(illegal, "\x00") {
+					for _, ill := range append(append([]string{}, illegal...), "\x00", "\x0b", "\x0c", "\x08") {
 						k++
 						if !c.Mine(k) {
 							continue
